@@ -1,4 +1,5 @@
 import SqlgrepModel.Model.Eval
+import SqlgrepModel.Lemmas.Cond
 import SqlgrepModel.Lemmas.NumericOrder
 import SqlgrepModel.Lemmas.Utf8Order
 import SqlgrepModel.Lemmas.ParseLitTs
@@ -26,27 +27,97 @@ theorem is_null_test (isNot : Bool) (l : Expr) (lv : Value) (hl : eval O env l =
   simp only [eval, hl, bind, Outcome.bind, pure]
   cases lv <;> cases isNot <;> simp [Value.beq, Value.isNull]
 
+/-! ### AND / OR: conditions
+
+An operand of AND / OR is a *condition*: a BOOLEAN or NULL. TRUE holds; FALSE and NULL do not hold (AND / OR are
+two-valued: NULL counts as not true, and the result is never NULL). A value of any other type has no truth value: if
+such an operand is evaluated, the operation is a type error (finding D69, repaired: it used to count as FALSE).
+The right operand is evaluated exactly when the left one does not decide (`LeftDecides`). -/
+
+/-- the value is a condition: BOOLEAN or NULL -/
+def BoolOrNull (v : Value) : Prop := v = .null ∨ ∃ b, v = .bool b
+
+/-- the value is of another type than BOOLEAN (and not NULL): it has no truth value -/
+def NoTruthValue (v : Value) : Prop := v ≠ .null ∧ ∀ b, v ≠ .bool b
+
+/-- the left operand alone fixes the result: a left operand of AND that is not TRUE (FALSE or NULL), a left operand of
+OR that is TRUE -/
+def LeftDecides (isAnd : Bool) (lv : Value) : Prop :=
+  if isAnd then (lv = .bool false ∨ lv = .null) else lv = .bool true
+
+theorem boolOrNull_or_noTruthValue (v : Value) : BoolOrNull v ∨ NoTruthValue v := by
+  cases v <;> simp [BoolOrNull, NoTruthValue]
+
 /-- AND / OR are two-valued: whenever they have a value it is TRUE or FALSE, never NULL -/
 theorem bool_ops_two_valued (isAnd : Bool) (l r : Expr) (v : Value)
     (h : eval O env (.boolOp isAnd l r) = .ok v) : ∃ b, v = .bool b := by
-  simp only [eval, bind, Outcome.bind, pure] at h
-  cases hl : eval O env l <;> rw [hl] at h <;> simp at h
-  cases isAnd <;> simp at h
-  all_goals
-    split at h
-    · first | exact ⟨_, (Outcome.ok.inj h).symm⟩ | (cases hr : eval O env r <;> rw [hr] at h <;> simp at h; exact ⟨_, h.symm⟩)
-    · first | exact ⟨_, (Outcome.ok.inj h).symm⟩ | (cases hr : eval O env r <;> rw [hr] at h <;> simp at h; exact ⟨_, h.symm⟩)
+  rw [eval_boolOp] at h
+  cases hl : eval O env l <;> rw [hl] at h <;> simp only [Outcome.bind, reduceCtorEq] at h
+  rename_i lv
+  cases hc : condHolds lv <;> rw [hc] at h <;> simp only [reduceCtorEq] at h
+  split at h
+  · cases hr : eval O env r <;> rw [hr] at h <;> simp only [reduceCtorEq] at h
+    rename_i rv
+    cases hrc : condHolds rv <;> rw [hrc] at h <;> simp only [reduceCtorEq] at h
+    exact ⟨_, (Outcome.ok.inj h).symm⟩
+  · exact ⟨_, (Outcome.ok.inj h).symm⟩
 
-/-- AND is the conjunction of the operands' truth values (non-boolean operands count as false) -/
-theorem and_meaning (l r : Expr) (lv rv : Value) (hl : eval O env l = .ok lv) (hr : eval O env r = .ok rv) :
-    eval O env (.boolOp true l r) = .ok (.bool (lv.truthy && rv.truthy)) := by
-  simp only [eval, hl, hr, bind, Outcome.bind, pure]
-  cases lv.truthy <;> simp
+/-- **AND** of two conditions (each BOOLEAN or NULL) is TRUE exactly when both operands are TRUE, and FALSE otherwise —
+in particular `NULL AND x` is FALSE, not NULL -/
+theorem and_meaning (l r : Expr) (lv rv : Value) (hl : eval O env l = .ok lv) (hr : eval O env r = .ok rv)
+    (cl : BoolOrNull lv) (cr : BoolOrNull rv) :
+    ∃ b, eval O env (.boolOp true l r) = .ok (.bool b) ∧ (b = true ↔ lv = .bool true ∧ rv = .bool true) := by
+  rw [eval_boolOp, hl, hr]
+  rcases cl with rfl | ⟨x, rfl⟩ <;> rcases cr with rfl | ⟨y, rfl⟩ <;> try cases x <;> try cases y
+  all_goals simp [Outcome.bind]
 
-theorem or_meaning (l r : Expr) (lv rv : Value) (hl : eval O env l = .ok lv) (hr : eval O env r = .ok rv) :
-    eval O env (.boolOp false l r) = .ok (.bool (lv.truthy || rv.truthy)) := by
-  simp only [eval, hl, hr, bind, Outcome.bind, pure]
-  cases lv.truthy <;> simp
+/-- **OR** of two conditions is TRUE exactly when at least one operand is TRUE, and FALSE otherwise
+(`NULL OR FALSE` is FALSE) -/
+theorem or_meaning (l r : Expr) (lv rv : Value) (hl : eval O env l = .ok lv) (hr : eval O env r = .ok rv)
+    (cl : BoolOrNull lv) (cr : BoolOrNull rv) :
+    ∃ b, eval O env (.boolOp false l r) = .ok (.bool b) ∧ (b = true ↔ lv = .bool true ∨ rv = .bool true) := by
+  rw [eval_boolOp, hl, hr]
+  rcases cl with rfl | ⟨x, rfl⟩ <;> rcases cr with rfl | ⟨y, rfl⟩ <;> try cases x <;> try cases y
+  all_goals simp [Outcome.bind]
+
+/-- **a type mismatch in AND / OR is an error** (C03: "an expression that has no value … (type mismatch …) makes the
+query report an error rather than emit a wrong value"), and the right operand is evaluated exactly when the left does
+not decide. For a left operand with value `lv`:
+1. `lv` of another type than BOOLEAN (not NULL): the operation is the type error, whatever the right operand is;
+2. `lv` decides (`FALSE`/`NULL AND …`, `TRUE OR …`): the result is that of the left operand and does not depend on the
+   right operand at all — not on its value, its type, or on whether it has a value;
+3. `lv` is a condition that does not decide: the right operand IS evaluated — its error is the operation's error, and
+   a right value of another type than BOOLEAN (not NULL) is the type error. -/
+theorem bool_op_type_mismatch_is_error (isAnd : Bool) (l r : Expr) (lv : Value) (hl : eval O env l = .ok lv) :
+    (NoTruthValue lv → eval O env (.boolOp isAnd l r) = .error .typeError) ∧
+    (LeftDecides isAnd lv → eval O env (.boolOp isAnd l r) = .ok (.bool (!isAnd))) ∧
+    (BoolOrNull lv → ¬ LeftDecides isAnd lv →
+      (∀ rv, eval O env r = .ok rv → NoTruthValue rv → eval O env (.boolOp isAnd l r) = .error .typeError) ∧
+      (∀ k, eval O env r = .error k → eval O env (.boolOp isAnd l r) = .error k)) := by
+  rw [eval_boolOp, hl]
+  refine ⟨fun hn => ?_, fun hd => ?_, fun hc hd => ⟨fun rv hr hn => ?_, fun k hr => ?_⟩⟩
+  · simp [Outcome.bind, condHolds_typeError lv hn.1 hn.2]
+  · cases isAnd
+    · simp only [LeftDecides, Bool.false_eq_true, if_false] at hd; subst hd; simp [Outcome.bind]
+    · simp only [LeftDecides, if_true] at hd; rcases hd with rfl | rfl <;> simp [Outcome.bind]
+  · rw [hr]
+    rcases hc with rfl | ⟨x, rfl⟩ <;> cases isAnd <;> try cases x
+    all_goals simp_all [Outcome.bind, LeftDecides, condHolds_typeError rv hn.1 hn.2]
+  · rw [hr]
+    rcases hc with rfl | ⟨x, rfl⟩ <;> cases isAnd <;> try cases x
+    all_goals simp_all [Outcome.bind, LeftDecides]
+
+-- non-vacuity: `5 AND TRUE`, `'a' OR FALSE`, `TRUE AND 5` are errors; `FALSE AND 5`, `NULL AND 5`, `TRUE OR 'a'` are
+-- decided by the left operand; `NULL OR 5` is an error (NULL does not decide OR)
+example : eval {} {} (.boolOp true (.value (.int 5)) (.value (.bool true))) = .error .typeError := rfl
+example : eval {} {} (.boolOp false (.value (.text [97])) (.value (.bool false))) = .error .typeError := rfl
+example : eval {} {} (.boolOp true (.value (.bool true)) (.value (.int 5))) = .error .typeError := rfl
+example : eval {} {} (.boolOp true (.value (.bool false)) (.value (.int 5))) = .ok (.bool false) := rfl
+example : eval {} {} (.boolOp true (.value .null) (.value (.int 5))) = .ok (.bool false) := rfl
+example : eval {} {} (.boolOp false (.value (.bool true)) (.value (.text [97]))) = .ok (.bool true) := rfl
+example : eval {} {} (.boolOp false (.value .null) (.value (.int 5))) = .error .typeError := rfl
+example : NoTruthValue (.int 5) ∧ BoolOrNull .null ∧ LeftDecides true .null ∧ ¬ LeftDecides false .null := by
+  simp [NoTruthValue, BoolOrNull, LeftDecides]
 
 /-- arithmetic with NULL gives NULL -/
 theorem arith_null_left (op : ArithOp) (r : Value) : arith op .null r = .ok .null := by
@@ -175,27 +246,29 @@ theorem evalIn_is_or (e : Expr) (v : Value) (he : eval O env e = .ok v) :
   | cons m ms ih =>
     intro a
     have hrest : ∀ a', evalIn O env false v a' ms =
-        (eval O env (orOfEq e ms)).bind (fun rv => .ok (.bool rv.truthy)) := by
+        (eval O env (orOfEq e ms)).bind (fun rv => (condHolds rv).bind (fun rb => .ok (.bool rb))) := by
       intro a'
       rw [ih a']
       cases hr : eval O env (orOfEq e ms) with
-      | ok r => obtain ⟨b, hb⟩ := eval_orOfEq_bool O env e ms r hr; subst hb; simp [Outcome.bind, Value.truthy]
+      | ok r => obtain ⟨b, hb⟩ := eval_orOfEq_bool O env e ms r hr; subst hb; simp [Outcome.bind]
       | error k => rfl
       | panic s => rfl
       | oracleMissing w => rfl
-    simp only [evalIn, orOfEq, eval, he, bind, Outcome.bind, pure]
+    show evalIn O env false v a (m :: ms) = eval O env (.boolOp false (.compare .eq e m) (orOfEq e ms))
+    rw [eval_boolOp]
+    simp only [evalIn, eval, he, bind, pure]
     cases hm : eval O env m with
     | error k => rfl
     | panic s => rfl
     | oracleMissing w => rfl
     | ok x =>
-      simp only
+      simp only [Outcome.bind]
       by_cases hx : x.isNull = true
       · -- a NULL member: `e = NULL` is false, the next members decide
         have hxn : x = .null := by cases x <;> simp_all [Value.isNull]
         subst hxn
         simp only [Value.isNull, if_true, prepCompare_null_right, Bool.not_true, Bool.and_false, Bool.false_eq_true, if_false,
-          Value.truthy]
+          condHolds_bool]
         exact hrest true
       · have hx' : x.isNull = false := by simpa using hx
         simp only [hx', Bool.false_eq_true, if_false]
@@ -203,7 +276,7 @@ theorem evalIn_is_or (e : Expr) (v : Value) (he : eval O env e = .ok v) :
         · have hvn : v = .null := by cases v <;> simp_all [Value.isNull]
           subst hvn
           simp only [Value.isNull, if_true, prepCompare_null_left O x hx', Bool.not_true, Bool.false_and, Bool.false_eq_true,
-            if_false, Value.truthy]
+            if_false, condHolds_bool]
           exact hrest a
         · have hv' : v.isNull = false := by simpa using hv
           simp only [hv', Bool.false_eq_true, if_false]
@@ -216,9 +289,9 @@ theorem evalIn_is_or (e : Expr) (v : Value) (he : eval O env e = .ok v) :
             obtain ⟨ha, hb⟩ := prepCompare_nonnull O v x a' b' hv' hx' hp
             simp only [ha, hb, Bool.not_false, Bool.and_self, if_true, applyCmp]
             by_cases hc : (compareValues a' b' == Ordering.eq) = true
-            · simp [hc, Value.truthy]
+            · simp [hc]
             · have hc' : (compareValues a' b' == Ordering.eq) = false := by simpa using hc
-              simp only [hc', Bool.false_eq_true, if_false, Value.truthy, Bool.not_false]
+              simp only [hc', Bool.false_eq_true, if_false, condHolds_bool, Bool.not_false]
               exact hrest a
 
 /-- **`x IN (v1, …, vn)` means `x = v1 OR … OR x = vn`**: the evaluator gives `IN` exactly the outcome it gives the
@@ -312,18 +385,34 @@ theorem notin_is_and_chain (e : Expr) (v : Value) (x : Value) (xs : List Value) 
     eval O env (.inList true e ((x :: xs).map .value)) = eval O env (andOfNe e ((x :: xs).map .value)) := by
   rw [notin_is_and_of_ne O env e v x xs he hc, andOfNe_value O env e v he (x :: xs) hc]
 
-/-- CASE takes the first true branch -/
-theorem case_first_true (c r els : Expr) (rest : List (Expr × Expr)) (cv : Value)
-    (hc : eval O env c = .ok cv) (ht : cv.truthy = true) :
+/-- CASE takes the first branch whose WHEN condition is TRUE -/
+theorem case_first_true (c r els : Expr) (rest : List (Expr × Expr))
+    (hc : eval O env c = .ok (.bool true)) :
     eval O env (.case ((c, r) :: rest) els) = eval O env r := by
-  simp only [eval, evalCase, hc, ht, bind, Outcome.bind, pure, if_true]
+  simp only [eval, evalCase, hc, bind, Outcome.bind, pure, condHolds_bool, if_true]
   cases eval O env r <;> rfl
 
+/-- a WHEN condition that is FALSE or NULL does not hold: the clause is skipped -/
 theorem case_skip_false (c r els : Expr) (rest : List (Expr × Expr)) (cv : Value)
-    (hc : eval O env c = .ok cv) (ht : cv.truthy = false) :
+    (hc : eval O env c = .ok cv) (ht : cv = .bool false ∨ cv = .null) :
     eval O env (.case ((c, r) :: rest) els) = eval O env (.case rest els) := by
-  simp only [eval, evalCase, hc, ht, bind, Outcome.bind, pure]
-  simp
+  rcases ht with rfl | rfl <;> simp [eval, evalCase, hc, bind, Outcome.bind, pure]
+
+/-- **a type mismatch in a WHEN condition is an error**: a WHEN expression that is reached (the clauses before it were
+skipped, `case_skip_false`) and whose value is of another type than BOOLEAN (not NULL) makes the CASE expression a type
+error — it is not skipped as if it were FALSE (finding D69, repaired) -/
+theorem case_condition_type_mismatch_is_error (c r els : Expr) (rest : List (Expr × Expr)) (cv : Value)
+    (hc : eval O env c = .ok cv) (hn : NoTruthValue cv) :
+    eval O env (.case ((c, r) :: rest) els) = .error .typeError := by
+  simp [eval, evalCase, hc, bind, Outcome.bind, condHolds_typeError cv hn.1 hn.2]
+
+-- non-vacuity: `CASE WHEN 5 THEN 1 ELSE 2 END` is an error; `CASE WHEN NULL THEN 1 WHEN 'a' THEN 2 ELSE 3 END` too
+-- (the NULL clause is skipped, the TEXT condition is reached); `CASE WHEN TRUE THEN 1 WHEN 5 THEN 2 …` is 1
+example : eval {} {} (.case [(.value (.int 5), .value (.int 1))] (.value (.int 2))) = .error .typeError := rfl
+example : eval {} {} (.case [(.value .null, .value (.int 1)), (.value (.text [97]), .value (.int 2))] (.value (.int 3))) =
+    .error .typeError := rfl
+example : eval {} {} (.case [(.value (.bool true), .value (.int 1)), (.value (.int 5), .value (.int 2))] (.value (.int 3))) =
+    .ok (.int 1) := rfl
 
 /-- array subscripts are 1-based; out-of-range subscripts give NULL -/
 theorem subscript_one_based (a i : Expr) (t : VType) (xs : List Value) (n : Int)
